@@ -508,13 +508,13 @@ Proof.
     rewrite (i_o s HI) in Hs. discriminate.
 Qed.
 
-Lemma open_InvF : forall v fl bad s, InvC s -> In v (views s) ->
-  opened (open_db v fl bad s) = true -> InvF (open_db v fl bad s).
+Lemma open_InvF : forall v fl mbad bad s, InvC s -> In v (views s) ->
+  opened (open_db v fl mbad bad s) = true -> InvF (open_db v fl mbad bad s).
 Proof.
-  intros v fl bad s H Hv Ho.
-  destruct (open_db_spec v fl bad s H Hv) as [Hg Hsp]. destruct (Hsp Ho) as (E1&E2&Hcls&Hfz&Hres).
+  intros v fl mbad bad s H Hv Ho.
+  destruct (open_db_spec v fl mbad bad s H Hv) as [Hg Hsp]. destruct (Hsp Ho) as (E1&E2&Hcls&Hfz&Hres).
   unfold Good in Hg. rewrite Ho in Hg. pose proof (i_k _ Hg) as HK.
-  set (s' := open_db v fl bad s) in *.
+  set (s' := open_db v fl mbad bad s) in *.
   constructor.
   - intros t c Hc. apply E1. unfold exact_set. apply in_or_app. left. apply in_map_iff. exists t. split; auto.
     apply tabs_of_In; auto. rewrite Hc. f_equal. apply (Hcls t c Hc).
